@@ -98,7 +98,20 @@ def _run_chunk(modname, prop, tier, base_seed, indices, recheck_every):
                             res2["pin"] = dict(res2.get("pin") or {}, repeat_in_process=2)
                             res = res2
                         else:
-                            res["nondeterministic"] = (res["digest"], res2["digest"])
+                            # state carried over inside the code under test (a cache, a memo) makes the first
+                            # execution differ from the later ones without anything being wrong: only if the
+                            # executions do not settle either (2nd != 3rd) is this nondeterminism
+                            res3 = chk.execute(prop, desc)
+                            if res3.get("violations"):
+                                for v in res3["violations"]:
+                                    v.setdefault("tags", {})["on_reexecution_in_process"] = True
+                                    v["msg"] = "[third execution of the same case in one process] " + v["msg"]
+                                res3["pin"] = dict(res3.get("pin") or {}, repeat_in_process=3)
+                                res = res3
+                            elif res3["digest"] == res2["digest"]:
+                                res.setdefault("stats", {}).setdefault("probes", {})["first-execution-differs-then-settles"] = 1
+                            else:
+                                res["nondeterministic"] = (res["digest"], res2["digest"], res3["digest"])
             except Exception as e:
                 res = {
                     "harness_error": "".join(traceback.format_exception(e))[-4000:],
